@@ -37,7 +37,7 @@ CLAIMED = {
   technique="TLA+ spec (ClusterPipeline.tla, safety + liveness over all schedules) model-checked with TLC + trace validation of perturbed real runs (ClusterPipelineTrace.tla, ContentPackTrace.tla)",
   design="5 C08"),
  "C10": dict(
-  text="Packaging.tla: packs are identities held by files (container or single), the manifest records locations, the reader resolves a pack inside the entry-point file first, then at its recorded location, identity deciding. TLC explores every packaging mode, concat of every subset of files, prefix embedding, removals / replacements / relocations (27k states) and checks SameLogicalContent, IdentityIsUuid, MissingIsReported, PresentStillReads (the pinned locator, modelled as PinnedLocate, violates them). Every configuration is produced with the real creator and tools (3 packagings, concat in every order and of every subset containing the entry point, prefixes of 1/63/64/4096 bytes, 0-2 extra content packs), dumped through reader::Container and compared item by item with the logical container; PackagingTrace.tla accepts only the resolutions Locate allows, an empty diff and a true check.",
+  text="Packaging.tla: packs are identities held by files (container or single), the manifest records locations, the reader resolves a pack inside the entry-point file first, then at its recorded location, identity deciding. TLC explores every packaging mode, concat of every subset of files, prefix embedding, removals / replacements / relocations (27k states) and checks SameLogicalContent, IdentityIsUuid, MissingIsReported, PresentStillReads (the pinned locator, modelled as PinnedLocate, violates them). Every configuration is produced with the real creator and tools (3 packagings, concat in every order and of every subset containing the entry point, prefixes of 1/63/64/4096 bytes, 0-2 extra content packs), dumped through reader::Container and compared item by item with the logical container; PackagingTrace.tla accepts only the resolutions Locate allows, an empty diff and a true check. An extra stage replays seeded end-to-end histories against the root module Jubako.tla (ReadIsLogicalOrReported: whatever the history, every pack reads as its logical content, is reported missing, or reports an error / fails the check).",
   note="Trusted: TLC, tools/jbkdec.py for which file holds which pack identity, the expected logical dump computed from the scenario alone.",
   technique="TLA+ spec (Packaging.tla) model-checked with TLC + exhaustive replay of the configuration space through the real code + trace validation (PackagingTrace.tla)",
   design="5 C10"),
@@ -57,7 +57,7 @@ CLAIMED = {
   technique="TLA+ spec (Views.tla) model-checked with TLC + TLC-simulated behaviours replayed through the real API on all source kinds + trace validation (ViewsTrace.tla)",
   design="5 C13"),
  "C04": dict(
-  text="Integrity.tla: a container is a set of blocks (verified by CRC or not, inside a pack's hashed range or not, with or without exempt bytes); TLC enumerates every single and double damage (1 627 damage states) and every truncation point of a representative one-file container and checks PristineVerifies, CoveredDamageDetected, ExemptIsExempt from what check() verifies. For real containers (packagings x compressions) every byte position x masks {01,80,ff} and sampled multi-byte alterations are applied to a copy, the copy is opened and every check run (Container::check, each pack's own check); IntegrityTrace.tla (Prop=C04) accepts a case only if damage on bytes a checksum covers (classified by the independent decoder's block map; the location bytes 38..256 of pack infos and their CRC are the declared exemption) makes that pack's check and the container check not 'true'; the pristine file must verify.",
+  text="Integrity.tla: a container is a set of blocks (verified by CRC or not, inside a pack's hashed range or not, with or without exempt bytes); TLC enumerates every single and double damage (1 627 damage states) and every truncation point of a representative one-file container and checks PristineVerifies, CoveredDamageDetected, ExemptIsExempt from what check() verifies. For real containers (packagings x compressions) every byte position x masks {01,80,ff} and sampled multi-byte alterations are applied to a copy, the copy is opened and every check run (Container::check, each pack's own check); IntegrityTrace.tla (Prop=C04) accepts a case only if damage on bytes a checksum covers (classified by the independent decoder's block map; the location bytes 38..256 of pack infos and their CRC are the declared exemption) makes that pack's check and the container check not 'true'; the pristine file must verify. An extra stage replays seeded end-to-end histories (packaging, concat, prefix, removals, relocations, damage) against the root module Jubako.tla, whose CheckIsSound says that a container whose check is true reads back as its logical content.",
   note="Trusted: TLC, tools/jbkdec.py for the block map and the coverage classification. Quick: one mask per position; thorough: all three, all packagings x compressions.",
   technique="TLA+ spec (Integrity.tla) model-checked with TLC + exhaustive single-byte fault enumeration on real containers + trace validation (IntegrityTrace.tla)",
   design="5 C04"),
